@@ -135,6 +135,9 @@ FIRST.update({  # round 8
 FIRST.update({  # rounds 9 and 10
  "C12f": ("missed (not run before the strengthening: no recorded instruction carried bytes trailing its arguments, so the shape could not occur)", "harness modifier pad; TxShape padded start / end symbols (RecvP instance); C12 clause deleverage_is_bracketed_like_a_liquidation / deleverage_leaves_no_marker_on_any_account; admin driver: two-account deleverage brackets with a plain and a padded second start"),
  "C08g": ("missed (not run before the strengthening: the padded start existed only in C10's RecvP instance)", "RecvP instance added to C08 (its general clause third_party_control_ends_with_the_transaction judges the committed lists)"),
+ "C16i": ("missed", "edge driver: a liquidator holding two to five positions, one of them in the bank it seizes from and none in the debt bank (whose key lies above or below the collateral banks' keys); after a refusal, account lists naming one of the liquidator's banks twice are tried"),
+ "C16j": ("missed", "edge driver: asset-class mixing in every opening order (SOL-class collateral, a pure default-class debt, then staked collateral; staked first; a repaid-to-dust debt; leaving the default bank)"),
+ "C05g": ("missed (model drift only)", "RiskCfg: a feed variant after which the account is healthy only thanks to the e-mode maintenance weight, followed by the liquidation attempt"),
  "C13g": ("missed", "Config.tla: limits travel with the weights in configure requests (borrow limit 0 / small together with incoherent liability weights)"),
  "C10h": ("missed (not run before the strengthening: no bracket world had a reduce-only collateral bank)", "Recv.tla: the admin makes the collateral bank reduce-only before the bracket (its deposits keep counting for the maintenance and equity valuations)"),
  "C02h": ("missed", "edge driver: all sixteen slots in use, one of them holding less than a share (every whole unit withdrawn after accrual), a seventeenth position attempted by deposit and by borrow"),
